@@ -231,11 +231,17 @@ func c07Scope(tier string) *drv.Scope {
 				ct, fr := allClipTypes[(idx/4)%4], allFillRules[(idx/16)%4]
 				var gc, gopen PathsD
 				var tree *clipper.PolyTreeD
+				var gc2, go2 PathsD
 				pan, _, msg := callD(func() {
 					e := clipper.NewClipperD(p)
 					e.AddPaths(SD, clipper.Subject, true)
 					e.AddPaths(CD, clipper.Clip, false)
 					e.ExecuteOC(ct, fr, &gc, &gopen)
+					// the variants taking the caller's scale functions, given the library's own ones
+					e2 := clipper.NewClipperD(p)
+					e2.AddPathsWithScaleFunc(SD, clipper.Subject, true, clipper.ScalePathsDToPaths64)
+					e2.AddPathsWithScaleFunc(CD, clipper.Clip, false, clipper.ScalePathsDToPaths64)
+					e2.ExecuteWithScaleFunc(ct, fr, &gc2, &go2, clipper.ScalePath64ToPathD)
 					tree = clipper.BooleanOpPolyTreeD(ct, SD, CD, fr, pv...)
 				})
 				e64 := clipper.NewClipper64()
@@ -250,6 +256,8 @@ func c07Scope(tier string) *drv.Scope {
 				} else {
 					fail("engine", "ClipperD.ExecuteOC closed/"+cfgName(ct, fr), false, "", sameD(gc, wc, p))
 					fail("engine", "ClipperD.ExecuteOC open/"+cfgName(ct, fr), false, "", sameD(gopen, wo, p))
+					fail("engine", "ClipperD.ExecuteWithScaleFunc closed/"+cfgName(ct, fr), false, "", sameD(gc2, wc, p))
+					fail("engine", "ClipperD.ExecuteWithScaleFunc open/"+cfgName(ct, fr), false, "", sameD(go2, wo, p))
 					if a, b := canonTree(tree.PolyPathBase), canonTree(t64.PolyPathBase); a != b {
 						fail("tree", "BooleanOpPolyTreeD/"+cfgName(ct, fr), false, "", fmt.Sprintf("tree %s differs from the 64-bit tree of the quantised input %s", a, b))
 					}
